@@ -79,6 +79,16 @@ def d1_tables(ctx, rm: REModel):
         if isinstance(s, ast.Assign) and A.chain(s.targets[0]) == "exception_map" and isinstance(s.value, ast.Dict):
             emap = {A.const_str(k): A.chain(v) for k, v in zip(s.value.keys, s.value.values)}
             emap_stmt = s
+    if emap is None:
+        # the same table kept as a class-level constant: `<self|RunEngine>.<NAME>[self.state]` in the loop
+        for n in ast.walk(rm.loop):
+            if isinstance(n, ast.Subscript) and A.norm(n.slice) in ("self.state", "self._state") and isinstance(n.value, ast.Attribute) \
+                    and isinstance(n.value.value, ast.Name) and n.value.value.id in ("self", "RunEngine", "cls"):
+                for cs_ in rm.cls.node.body:
+                    if isinstance(cs_, (ast.Assign, ast.AnnAssign)) and A.chain(cs_.targets[0] if isinstance(cs_, ast.Assign) else cs_.target) == n.value.attr \
+                            and isinstance(cs_.value, ast.Dict):
+                        emap = {A.const_str(k): A.chain(v) for k, v in zip(cs_.value.keys, cs_.value.values)}
+                        emap_stmt = cs_
     ctx.require(emap is not None, "anchor vanished: exception_map in the CancelledError handler of _run")
     for st, exc in STATE_EXC.items():
         ok = emap.get(st) == exc
